@@ -25,6 +25,7 @@ R1.15 enum members of one class get pairwise distinct names (duplicate member = 
 R1.17 a schema object outside the registry (property stub) that is given a class name is given its module stem in the same place
 R1.18 imports executed when a shipped runtime module is imported (module level, not optional) are stdlib / httpx / cattrs / relative
 R1.19 the import of a referenced model is deferred when the reference closes a cycle between model modules            [finding on the pinned tree]
+R1.21 no dataclass field can have the name of a lower-case import the model module uses in the class body (date, field, ...)
 R1.9  duplicate argument names cannot be emitted (operation-level override + de-dup)                     [= R4.4 / R20.2]
 """
 from __future__ import annotations
@@ -81,6 +82,7 @@ def run(repo: Repo, rep: Report, tier: str) -> None:
     rule_no_value_return_in_stream(repo, rep, "R1.14")
     rule_named_stub_has_module(repo, rep, "R1.17")
     rule_cyclic_model_imports(repo, rep, "R1.19")
+    rule_fields_do_not_shadow_imports(repo, rep, "R1.21")
     from rules.c12 import rule_import_time_imports
 
     rule_import_time_imports(repo, rep, "R1.18")
@@ -1094,3 +1096,111 @@ def rule_cyclic_model_imports(repo: Repo, rep, rule: str = "R1.19") -> None:
                       f"`{norm(regs[0])[:60]}` is the only way a referenced model is imported and nothing in the resolver, the model visitor or the models emitter looks at the "
                       "parser's cycle marks: for schemas that reference each other (A.b -> B, B.a -> A) `a.py` and `b.py` import each other at module level and the models package "
                       "cannot be imported (ImportError: partially initialized module)", fn.loc(regs[0]))
+
+
+# ------------------------------------------------------------------------------------------------ R1.20 emitted lines are joined with a line break
+_R120_EXAMPLE = '''
+def write_init(path, lines):
+    with open(path, "w") as f:
+        f.write("\\\\n".join(lines))
+'''
+
+
+def _escaped_newline_joins(tree: ast.AST):
+    """`"\\\\n".join(...)` / `+ "\\\\n"`: the separator is the two characters backslash and n, not a line break"""
+    out = []
+    for c in ast.walk(tree):
+        if isinstance(c, ast.Call) and isinstance(c.func, ast.Attribute) and c.func.attr == "join" and isinstance(c.func.value, ast.Constant) and c.func.value.value == "\\n":
+            out.append(c)
+    return out
+
+
+def rule_lines_joined_with_newline(repo: Repo, rep, rule: str = "R1.20") -> None:
+    """A file assembled as a list of lines is written with a real line break between them.  Joined with the two characters `\\n` the whole file
+    is one line - for an `__init__.py` that starts with a comment, one comment: every import and `__all__` below it is gone, the package
+    re-exports nothing (and where that `__init__.py` is also the core's, the exception classes of every client disappear)."""
+    rep.require(len(_escaped_newline_joins(ast.parse(_R120_EXAMPLE))) == 1, f"{rule}: the built-in positive example is no longer recognised - the rule is broken")
+    live = repo.import_closure(["generator.client_generator"])
+    n_join = 0
+    found = False
+    for mn in live:
+        if not any(k in mn for k in (".generator.", ".emitters.", ".visit.", ".core.writers.", ".context.")):
+            continue
+        mod = repo.modules[mn]
+        n_join += sum(1 for c in ast.walk(mod.tree) if isinstance(c, ast.Call) and isinstance(c.func, ast.Attribute) and c.func.attr == "join" and isinstance(c.func.value, ast.Constant))
+        for c in _escaped_newline_joins(mod.tree):
+            found = True
+            rep.violation(rule, f"{mod.relpath} `{norm(c)[:50]}`", f"{mod.name}|join-with-escaped-newline|{norm(c)[:40]}",
+                          "the lines are joined with a backslash followed by `n`, not with a line break: the file that is written is a single line (a comment, if it starts with "
+                          "one) and none of its imports / `__all__` entries exist", f"{mod.relpath}:{c.lineno}")
+    rep.count(f"{rule}:constant_separator_joins", n_join)
+    rep.require(n_join >= 10, f"{rule}: only {n_join} `<literal>.join(...)` calls found in the emit layer (floor 10)")
+    if not found:
+        rep.ok(rule, "emit layer: separators of joined line lists", f"{n_join} joins on a literal separator: none is the two-character `\\\\n`", "src/pyopenapi_gen:1")
+
+
+# ------------------------------------------------------------------------------------------------ R1.21 a field never takes the name of an import the class body uses
+def rule_fields_do_not_shadow_imports(repo: Repo, rep, rule: str = "R1.21") -> None:
+    """In a class body `date: date | None = None` binds the name `date` to None; the annotation of the next `date`-typed field is then
+    `None | None` - TypeError while the models package is imported (`field = None` breaks `field(default_factory=list)` the same way).
+    Every lower-case name the model-rendering code registers as an import (`add_import("datetime", "date")`, `add_import("dataclasses",
+    "field")`, ...) must therefore be impossible as a dataclass field name: refused by `sanitize_method_name` (keyword / RESERVED_NAMES) or by
+    an explicit exclusion in `DataclassGenerator.generate`."""
+    import keyword as _kw
+
+    live = repo.import_closure(["generator.client_generator"])
+    imported: Dict[str, str] = {}
+    for mn in live:
+        if not any(k in mn for k in (".core.writers.", ".types.", ".visit.model.", ".helpers.")):
+            continue
+        mod = repo.modules[mn]
+        for f_ in mod.functions.values():
+            if "enum" in f_.qualname.lower():
+                continue  # imports of enum modules (`unique`) never meet a dataclass body
+            for c in calls_in(f_.node):
+                if isinstance(c.func, ast.Attribute) and c.func.attr == "add_import" and len(c.args) >= 2:
+                    nm = const_str(c.args[1])
+                    if nm and nm.islower() and nm.isidentifier():
+                        imported.setdefault(nm, f"{mod.relpath}:{c.lineno}")
+    rep.count(f"{rule}:lower_case_imports", sorted(imported))
+    rep.require(len(imported) >= 4, f"{rule}: only {len(imported)} lower-case import registrations found in the model-rendering code (floor 4)")
+    utils = repo.module("core.utils")
+    ns = utils.classes.get("NameSanitizer")
+    refused: Set[str] = set()
+    if ns is not None:
+        for st in ns.node.body:
+            if isinstance(st, (ast.Assign, ast.AnnAssign)) and isinstance(st.value, (ast.Set, ast.List, ast.Tuple)):
+                refused |= {const_str(e) for e in st.value.elts if const_str(e)}
+    gen = repo.func("visit.model.dataclass_generator:DataclassGenerator.generate")
+    fn = gen
+    # the variable that holds the field name: assigned from sanitize_method_name(...)
+    names = {t.id for st in own_nodes(fn.node) if isinstance(st, ast.Assign) and isinstance(st.value, ast.Call) and isinstance(st.value.func, ast.Attribute)
+             and st.value.func.attr == "sanitize_method_name" for t in st.targets if isinstance(t, ast.Name)}
+    if not names:
+        from sa.flatten import flatten
+
+        fn = flatten(gen)
+        names = {t.id for st in own_nodes(fn.node) if isinstance(st, ast.Assign) and isinstance(st.value, ast.Call) and isinstance(st.value.func, ast.Attribute)
+                 and st.value.func.attr == "sanitize_method_name" for t in st.targets if isinstance(t, ast.Name)}
+    if not names:
+        raise AnalysisError(f"{rule}: the field name derivation (`<name> = NameSanitizer.sanitize_method_name(<property>)`) was not found in DataclassGenerator.generate (anchor)")
+    excluded: Set[str] = set()
+    for c in own_nodes(fn.node):
+        if isinstance(c, ast.Compare) and len(c.ops) == 1 and isinstance(c.ops[0], ast.In) and isinstance(c.left, ast.Name) and c.left.id in names:
+            rhs = c.comparators[0]
+            if isinstance(rhs, ast.Name):  # a module- / class-level constant
+                for st in ast.walk(gen.module.tree):
+                    if isinstance(st, ast.Assign) and any(isinstance(t, ast.Name) and t.id == rhs.id for t in st.targets):
+                        rhs = st.value
+            if isinstance(rhs, (ast.Tuple, ast.Set, ast.List)):
+                excluded |= {const_str(e) for e in rhs.elts if const_str(e)}
+            elif isinstance(rhs, ast.Call) and rhs.args and isinstance(rhs.args[0], (ast.Tuple, ast.Set, ast.List)):
+                excluded |= {const_str(e) for e in rhs.args[0].elts if const_str(e)}
+    for nm, where in sorted(imported.items()):
+        sub = f"{gen.module.relpath}:DataclassGenerator.generate field named like the imported `{nm}`"
+        if _kw.iskeyword(nm) or nm in refused or nm in excluded:
+            rep.ok(rule, sub, f"`{nm}` cannot be a field name ({'reserved by the sanitiser' if nm in refused else 'excluded in generate' if nm in excluded else 'keyword'})", where)
+        else:
+            rep.violation(rule, sub, f"{gen.fq}|field-shadows-import|{nm}",
+                          f"a property called `{nm}` becomes the field `{nm}`, and the model module imports `{nm}` ({where}) for use in the same class body: the field's "
+                          f"default rebinds the name, a later annotation / `{nm}(...)` call in the body sees None, and importing the models package raises TypeError", where)
